@@ -742,6 +742,18 @@ pub fn knobs_from_json(doc: &Json) -> (Knobs, Option<Vec<u32>>) {
 
 #[allow(clippy::too_many_arguments)]
 pub fn to_violation(seed: u64, run: u64, case: &ZoneCase, z: &RefZone, f: &Fail, instants: &[i64], knobs: &Knobs, nanos: &[u32]) -> Violation {
+    // the complete history: the original file, the switches and every instant of the run
+    let full = knobs_to_json(Json::obj(), knobs, nanos)
+        .set("property", Json::s("C18"))
+        .set("engine", Json::s("tzsim"))
+        .set("invariant", Json::s(f.invariant))
+        .set("seed", Json::Int(seed as i128))
+        .set("run", Json::Int(run as i128))
+        .set("zone", Json::s(&case.label))
+        .set("tzif_hex", Json::s(&hex(&case.bytes)))
+        .set("instants", Json::Arr(instants.iter().map(|t| Json::Int(*t as i128)).collect()))
+        .set("observed", Json::s(&f.observed))
+        .set("expected", Json::s(&f.expected));
     // a lookup answered from the upgraded file is minimised against that file alone
     let up_case;
     let up_zone;
@@ -756,17 +768,7 @@ pub fn to_violation(seed: u64, run: u64, case: &ZoneCase, z: &RefZone, f: &Fail,
         },
         _ => (case, z),
     };
-    let full = knobs_to_json(Json::obj(), knobs, nanos)
-        .set("property", Json::s("C18"))
-        .set("engine", Json::s("tzsim"))
-        .set("invariant", Json::s(f.invariant))
-        .set("seed", Json::Int(seed as i128))
-        .set("run", Json::Int(run as i128))
-        .set("zone", Json::s(&case.label))
-        .set("tzif_hex", Json::s(&hex(if f.on_upgraded { &case.bytes } else { &case.bytes })))
-        .set("instants", Json::Arr(instants.iter().map(|t| Json::Int(*t as i128)).collect()))
-        .set("observed", Json::s(&f.observed))
-        .set("expected", Json::s(&f.expected));
+
     let (bytes, mf) = if f.invariant.starts_with("Z0-parse") { (case.bytes.clone(), f.clone()) } else { minimise(case, z, f) };
     let key = match &mf.panic {
         Some(p) => format!("{}:{}", mf.invariant, p.key()),
